@@ -13,11 +13,15 @@ package astcomp
 // is a separate private register - so assignments in the body to the loop
 // variable, or to a variable used as start, limit or step, cannot disturb the
 // iteration.
+// A compiler is always created around a code builder (assumed, like Thread.Runtime).
+//@ typeinv compiler: self.CodeBuilder != nil
+
 //@ func (*compiler).ProcessForStat
 //@   prop C16
 //@   arith bv
 //@   norte
 //@   nocover
+//@   requires c != nil
 //@   modifies everything()
 //@   exits any
 //@   assert_before_call emitInstr#1: typeis($instr, ir.PrepForLoop) && spec.fromGetFreeRegister(asType($instr, ir.PrepForLoop).Start) && spec.fromGetFreeRegister(asType($instr, ir.PrepForLoop).Stop) && spec.fromGetFreeRegister(asType($instr, ir.PrepForLoop).Step)
